@@ -29,6 +29,7 @@ RULE = ('one evaluation = one simulated run of a sampled full-API workload (1 cl
         'write lock past the timeout; for each sampled workload (j, n) is enumerated over every statement and file call of every '
         'operation in the thorough tier and sampled in the quick tier; non-trivial = a fault fired or clients interleaved; '
         'distinct = SHA-256 of the seam event log')
+RULE += ' ' + 'A third of the injected OS errors last for up to three further calls of the same kind within the operation.'
 ASSUMPTIONS = ['one failure per run (fault pairs are not explored)', 'if the injected failure is the unlink itself, that one file may remain (stated allowance)']
 PROBES = ('sqlerr', 'oserr', 'commit_failed', 'unencodable', 'stream_error', 'timeout_seen', 'block_aborted', 'bad_argument', 'interrupt')
 TECHNIQUE = 'deterministic simulation with single-fault enumeration: n-th statement / n-th file call failure over all n of sampled workloads; independent directory auditor + check() at quiescence'
@@ -351,6 +352,9 @@ def run_seed(seed, tier):
         else:
             c['faults'] = [{'f': 'oserr', 'task': task, 'op': i, 'n': n, 'calls': FS_CALLS,
                             'errno': rng.choice(('ENOSPC', 'EIO', 'EACCES', 'EMFILE', 'EEXIST', 'INTERRUPT'))}]
+            if c['faults'][0]['errno'] in ('EIO', 'EACCES', 'EMFILE', 'ENOSPC') and rng.random() < 0.3:
+                # the condition lasts: every later call of that kind within the operation fails as well
+                c['faults'][0]['lasting'] = True
         r = runner_guarded(PROPERTY, run_case, copy.deepcopy(c))
         r.pop('counts', None)
         r['case'] = c
